@@ -106,6 +106,7 @@ fn constancy(m: &MDesc, len: u64, v: f64, steps: usize, seed: u64, r: &mut Repor
 		return;
 	}
 	let Some(x) = const_input(m, v, &mut rng) else { return };
+	r.case_named(m.name, &[8, reg::json_hash(&par.show()), reg::ins_hash(std::slice::from_ref(&x)), steps as u64]);
 	let case = |i: usize, first: &Out, got: &Out| json!({"method": m.name, "params": par.show(), "len": len, "value": v, "steps": steps, "seed": seed, "constant_input": show_in(&x), "step": i, "first_output": first.show(), "output": got.show(), "kind": "constancy"});
 	let res = guard(|| {
 		let mut inst = match (m.ctor)(&par, &x) {
@@ -151,6 +152,7 @@ fn prefix_invariance(m: &MDesc, len: u64, class: usize, seed: u64, r: &mut Repor
 	if exempt(m, &par) {
 		return;
 	}
+	r.case_named(m.name, &[81, reg::json_hash(&par.show()), class as u64, seed]);
 	let n = par.len().max(1);
 	let steps = (3 * n + 40).min(420);
 	let xs = stream_for(m, class, seed, steps, n);
@@ -258,6 +260,7 @@ fn indicator_constancy(d: &reg::IDesc, cfg: &dyn reg::DC, c: &Candle, steps: usi
 	if cfg_is_cumulative(d.name, &cfgv) {
 		return;
 	}
+	r.case_named(d.name, &[82, reg::json_hash(&cfgv), reg::candle_hash(c), steps as u64]);
 	let res = guard(|| {
 		let mut i = cfg.init(c).ok()?;
 		let first = i.next(c);
@@ -300,6 +303,7 @@ fn indicator_prefix(d: &reg::IDesc, cfg: &dyn reg::DC, cs: &[Candle], stream: (u
 	if cfg_is_cumulative(d.name, &cfgv) {
 		return;
 	}
+	r.case_named(d.name, &[83, reg::json_hash(&cfgv), reg::candles_hash(cs)]);
 	let base = guard(|| {
 		let mut i = cfg.init(&cs[0]).ok()?;
 		Some(cs.iter().map(|c| i.next(c)).collect::<Vec<_>>())
